@@ -119,8 +119,8 @@ CHECKS = {
  'C16': dict(
     technique="explicit-state model checking: TLC enumerates the TLA+ lifecycle model; every edge of the dumped "
               "state graph is replayed on the real Recipe by a product search over (model state, implementation fingerprint)",
-    text="All reachable states and edges of the bounded TLA+ lifecycle model (quick: 2 786 states / 78 138 edges; thorough: "
-         "two configurations, 40 085 states / 1.5 M edges) are enumerated by TLC and every edge is executed on the real "
+    text="All reachable states and edges of the bounded TLA+ lifecycle model (quick: 2 308 states / 89 678 edges; thorough: "
+         "two configurations, 32 370 states / 1.65 M edges) are enumerated by TLC and every edge is executed on the real "
          "pyplate.Recipe: outcome class of each call, step count, declared names, stage ranges, lock flag, and the full "
          "implementation digest (results, step records, after bake every tracking answer) after each refused call, a refused bake and nine calls with rejected arguments included.",
     note="Bounded: <= 3 (quick) / 4 (thorough) accepted steps, 2-3 outside objects, 2-3 recipe-created objects, 1-2 stage names; "
